@@ -37,6 +37,8 @@ struct V
     assigns: Vec<(String, String, String)>, // (enclosing fn, variable, literal)
     registers: Vec<String>,
     sig_loops: Vec<(String, Vec<String>)>, // `for v in [SIGTERM, SIGINT]` bindings in scope
+    sig_consts: Vec<(String, Vec<String>)>, // `const STOP: [c_int; 2] = [SIGTERM, SIGINT]` (pre-pass)
+    prepass: bool,
     lock_fields: Vec<(String, String)>,   // fields of struct Cache: (name, type)
     lock_struct_attrs: Vec<String>,       // serde attributes on struct Cache or its fields
 }
@@ -197,6 +199,14 @@ impl<'ast> Visit<'ast> for V
 
     fn visit_item_const(&mut self, c: &'ast syn::ItemConst)
     {
+        if self.prepass
+        {
+            if let Some(list) = signal_list(&c.expr)
+            {
+                self.sig_consts.push((c.ident.to_string(), list));
+            }
+            return;
+        }
         if let syn::Expr::Lit(l) = &*c.expr
         {
             if let Some((g, ty)) = lit_to_gallina(&l.lit)
@@ -401,19 +411,20 @@ impl<'ast> Visit<'ast> for V
 
     fn visit_expr_assign(&mut self, a: &'ast syn::ExprAssign)
     {
-        if let syn::Expr::Path(p) = &*a.left
+        // `x = <string-like>` and `s.x = <string-like>` (a field of a local struct): the variable is x
+        let var = match &*a.left
         {
-            if let Some(id) = p.path.get_ident()
+            syn::Expr::Path(p) => p.path.get_ident().map(|id| id.to_string()),
+            syn::Expr::Field(f) => match &f.member
             {
-                if let Some(s) = string_like(&a.right)
-                {
-                    self.assigns.push((
-                        self.fn_stack.last().cloned().unwrap_or_default(),
-                        id.to_string(),
-                        s,
-                    ));
-                }
-            }
+                syn::Member::Named(id) => Some(id.to_string()),
+                _ => None,
+            },
+            _ => None,
+        };
+        if let (Some(var), Some(s)) = (var, string_like(&a.right))
+        {
+            self.assigns.push((self.fn_stack.last().cloned().unwrap_or_default(), var, s));
         }
         syn::visit::visit_expr_assign(self, a);
     }
@@ -423,7 +434,37 @@ impl<'ast> Visit<'ast> for V
         let mut bound = false;
         if let syn::Pat::Ident(pi) = &*f.pat
         {
-            if let Some(list) = signal_list(&f.expr)
+            let by_const = match &*f.expr
+            {
+                syn::Expr::Path(p) => p
+                    .path
+                    .segments
+                    .last()
+                    .and_then(|seg| self.sig_consts.iter().find(|c| seg.ident == c.0))
+                    .map(|c| c.1.clone()),
+                syn::Expr::Reference(r) => match &*r.expr
+                {
+                    syn::Expr::Path(p) => p
+                        .path
+                        .segments
+                        .last()
+                        .and_then(|seg| self.sig_consts.iter().find(|c| seg.ident == c.0))
+                        .map(|c| c.1.clone()),
+                    _ => None,
+                },
+                syn::Expr::MethodCall(m) => match &*m.receiver
+                {
+                    syn::Expr::Path(p) => p
+                        .path
+                        .segments
+                        .last()
+                        .and_then(|seg| self.sig_consts.iter().find(|c| seg.ident == c.0))
+                        .map(|c| c.1.clone()),
+                    _ => None,
+                },
+                _ => None,
+            };
+            if let Some(list) = signal_list(&f.expr).or(by_const)
             {
                 self.sig_loops.push((pi.ident.to_string(), list));
                 bound = true;
@@ -503,6 +544,16 @@ const ROLES: [(&str, &str, &str, usize, usize); 5] = [
 pub fn translate(repo: &str) -> String
 {
     let mut v = V::default();
+    v.prepass = true;
+    for f in rust_files(repo)
+    {
+        let ast = parse_file(&f);
+        v.file = f.clone();
+        v.visit_file(&ast);
+    }
+    let sig_consts = std::mem::take(&mut v.sig_consts);
+    let mut v = V::default();
+    v.sig_consts = sig_consts;
     for f in rust_files(repo)
     {
         let ast = parse_file(&f);
@@ -737,11 +788,14 @@ pub fn translate(repo: &str) -> String
     // the key-value pieces: assignments of string-likes to locals of one function: one with a placeholder
     // (the prefix) and two without (the suffixes, in source order).  By name (find / insertion_prefix /
     // insertion_suffix), else the only function whose string-like assignments have that shape.
-    let named: Vec<&(String, String, String)> = v
+    let named_all: Vec<&(String, String, String)> = v
         .assigns
         .iter()
-        .filter(|(f, var, _)| f == "find" && (var == "insertion_prefix" || var == "insertion_suffix"))
+        .filter(|(_, var, _)| var == "insertion_prefix" || var == "insertion_suffix")
         .collect();
+    // all in one function (find at the pinned commit, or a helper it was split into)
+    let named: Vec<&(String, String, String)> =
+        if named_all.iter().all(|a| a.0 == named_all[0].0) { named_all } else { Vec::new() };
     let (prefixes, suffixes): (Vec<String>, Vec<String>) = if named.len() == 3
     {
         (
